@@ -131,7 +131,7 @@ func (data BuySwapPoolDataV260) Run(tx *Transaction, context state.Interface, re
 			if isGasCommissionFromPoolSwap && swapper.GetID() == commissionPoolSwapper.GetID() {
 				commissionInBaseCoin, _ = commissionPoolSwapper.CalculateBuyForSellWithOrders(commission)
 				if tx.GasCoin == coinToSell && coinToBuy.IsBaseCoin() {
-					swapper = swapper.AddLastSwapStepWithOrders(commission, commissionInBaseCoin, true)
+					swapper = swapper.AddLastSwapStepWithOrders(commission, commissionInBaseCoin, false)
 				}
 				if tx.GasCoin == coinToBuy && coinToSell.IsBaseCoin() {
 					swapper = swapper.AddLastSwapStepWithOrders(big.NewInt(0).Neg(commissionInBaseCoin), big.NewInt(0).Neg(commission), true)
